@@ -144,6 +144,8 @@ type BinOpts struct {
 	VLimitKB int
 	// NoFile sets ulimit -n for the process (0 = inherited)
 	NoFile int
+	// Uid runs the process as this user and group id (0 = as the harness; needs the harness to be root)
+	Uid uint32
 }
 
 type Bin struct {
@@ -199,6 +201,9 @@ func StartBin(o BinOpts) (*Bin, error) {
 	cmd.Stdout = lockedWriter{&b.mu, &b.out}
 	cmd.Stderr = lockedWriter{&b.mu, &b.errb}
 	cmd.SysProcAttr = &syscall.SysProcAttr{Pdeathsig: syscall.SIGKILL}
+	if o.Uid != 0 {
+		cmd.SysProcAttr.Credential = &syscall.Credential{Uid: o.Uid, Gid: o.Uid}
+	}
 	if err := cmd.Start(); err != nil {
 		return nil, err
 	}
